@@ -132,7 +132,7 @@ func (g *histGen) mod(t *rapid.T, si int, seq uint32, ev *Ev) (model.Op, bool) {
 		}
 		sdf := genSDF(t, g.knobs.ranges)
 		for _, p := range s.pdrs {
-			if sdfKey(p.SDF) == sdfKey(sdf) {
+			if sdfCollide(p.SDF, sdf) {
 				return op, false
 			}
 		}
@@ -218,7 +218,7 @@ func (g *histGen) mod(t *rapid.T, si int, seq uint32, ev *Ev) (model.Op, bool) {
 		np := s.pdrs[i]
 		np.SDF = genSDF(t, g.knobs.ranges)
 		for _, p := range s.pdrs {
-			if sdfKey(p.SDF) == sdfKey(np.SDF) && p.Src == np.Src {
+			if sdfCollide(p.SDF, np.SDF) && p.Src == np.Src {
 				return op, false
 			}
 		}
